@@ -37,7 +37,7 @@ RULE = ('A reference frame of 1-5 columns (int64, Int64, float64, Float64, '
         'Non-trivial: the edit touches something the options check, or it is '
         'a within-precision / excluded-column edit that must pass; distinct '
         'by case hash.')
-RULE += ' ' + 'Also: row labels on either frame (offset, reversed, strings, duplicated, carried along with a shuffle) - the model stays positional; a sixth of integer columns hold 64-bit values around 2**53, -2**62, 2**63-1 and differ by 1-3; edit retype_changed (int64 -> float64 with a fractional or within-precision cell, bool -> int64 with a 7); a second comparison of the same frames at the other loose type-matching level; half of the on-disk comparisons give both files one modification time.'
+RULE += ' ' + 'Also: row labels on either frame (offset, reversed, strings, duplicated, carried along with a shuffle) - the model stays positional; a sixth of integer columns hold 64-bit values around 2**53, -2**62, 2**63-1 and differ by 1-3; edit retype_changed (int64 -> float64 with a fractional or within-precision cell, bool -> int64 with a 7); a second comparison of the same frames at the other loose type-matching level; half of the on-disk comparisons give both files one modification time. One case in ten is a string table with a CSV reference (and sometimes a CSV actual) read by the default CSV loader: NA-like strings are data, only the empty field is null.'
 ASSUMPTIONS = ['type_matching levels: strict = same dtype name; medium also '
                'ignores bit width and nullability within int / float / bool '
                'and lets object stand for string; permissive also lets int, '
